@@ -19,6 +19,7 @@ RULE = {"C14": "generated packages on disk (0-5 modules, 0-4 classes per module 
                "SendableChooserSim / 'Auto Selector' string naming a mode or nothing; then either start/periodic/disable histories "
                "(incl. disable without start, double disable, periodic after disable) or run() periods in a gated thread.  "
                "Non-trivial = >=2 eligible modes and >=1 period with a chosen mode; distinct = hash of (package, selection, history)."}
+RULE["C14"] += "  Also: mode classes imported from a library module, realistic module names, falsy mode objects, BaseException failures, 1 ms run() period, mid-period and post-period disable(); replays re-run the shard's preceding cases."
 REQUIRED = {"C14": {"healthy-package": 200, "fault:duplicate": 30, "fault:defaults": 30, "fault:import": 30, "fault:ctor": 30,
                     "fault-raised-without-fms": 60, "fault-tolerated-with-fms": 60, "missing-package": 10, "disabled-class-skipped": 50,
                     "select:chooser-default": 50, "select:chooser-sim": 50, "select:auto-selector": 50, "select:auto-selector-unknown": 20,
